@@ -1,9 +1,9 @@
-"""T-mops: torchsnapshot/manifest_ops.py -> coq/gen/ManifestOpsGen.v   (Python ast -> Gallina, fail closed).
+"""T-mops: torchsnapshot/manifest_ops.py + manifest_utils.py (+ the entry classes of manifest.py)
+-> coq/gen/ManifestOpsGen.v   (Python ast -> Gallina, fail closed).
 
-Translated (pure decision logic only; everything else of manifest_ops.py is hand-modelled in model/ManifestOps.v and
-tied to the code by the differential harness of C07):
+Part A - decision fragments (the first version of this translator; kept, proofs/ManifestOpsInst.v):
   get_manifest_for_rank        the single top-level `if <cond>:` whose two arms return the existing-rank / new-rank
-                               manifests; <cond> is a comparison between `rank` and `metadata.world_size`
+                               manifests; <cond> is a (possibly negated) comparison between `rank` and `metadata.world_size`
                                ->  is_existing_rank_gen (W r : Z) : bool
   _get_manifest_for_new_rank   the loop `for p in list(m.keys()): entry = m[p]; if <keep>: continue; _remove_entry(...)`
                                with <keep> built from is_container_entry(entry), is_fully_replicated_entry(entry),
@@ -13,7 +13,20 @@ tied to the code by the differential harness of C07):
                                ->  elastic_key_gen (tok : pystr) : pystr
   _remove_entry                the key compared with str(k): `key = unquote(key)` before the loop `if str(k) == key`
                                ->  removed_key_gen (tok : pystr) : pystr
-proofs/ManifestOpsInst.v proves each equal to what model/ManifestOps.v uses.  Any other shape is an error.
+
+Part B - every function, statement by statement (class Tr below; vocabulary coq/model/ManifestPy.v; obligations
+proofs/ManifestOpsGenInst.v):
+  manifest.py        for each entry class, which of keys / replicated / shards / dim_map / mesh its __init__ sets
+                     ->  g_has_attr (hasattr, AttributeError of attribute reads); classes must derive from Entry directly
+  manifest_utils.py  is_dict_entry, is_container_entry, is_fully_replicated_entry, is_partially_replicated_entry,
+                     is_replicated_entry, is_sharded_entry   ->  g_is_... : addr -> M bool
+                     (isinstance against the class hierarchy g_entry_parent of gen/DispatchGen.v via Dispatch.is_a)
+  manifest_ops.py    _remove_entry, _get_rank_to_manifest (incl. copy.deepcopy), _get_merged_sharded_tensor_entries,
+                     _get_merged_dtensor_entries, _get_manifest_for_existing_rank, _get_manifest_for_new_rank,
+                     get_manifest_for_rank, handle_sharded_tensor_elasticity   ->  g_...
+  NOT translated (hand-modelled in ManifestPy.v, their source text is pinned below and any change fails closed):
+                     manifest_utils._get_replicated_ranks (numpy mesh slicing), dtensor_utils._ReplicatedShards.
+Any statement / expression / type outside what class Tr documents raises TranslateError.
 """
 from __future__ import annotations
 
@@ -69,6 +82,9 @@ def _branch(fn: ast.FunctionDef) -> str:
     else:
         raise TranslateError(where, "the arms do not call _get_manifest_for_existing_rank / _get_manifest_for_new_rank")
     t = st.test
+    while isinstance(t, ast.UnaryOp) and isinstance(t.op, ast.Not):          # `not rank >= W`
+        t = t.operand
+        negate = not negate
     if not (isinstance(t, ast.Compare) and len(t.ops) == 1 and len(t.comparators) == 1):
         raise TranslateError(where, f"unrecognised condition {ast.unparse(t)}")
 
